@@ -8,7 +8,9 @@ for every value of those constants; float literals inside the functions follow t
 Obligations: K_ij = -(d_t gamma_ij - L_beta gamma_ij)/(2 alpha); G_{mu nu} + Lambda g_{mu nu} =
 kappa T_{mu nu} for the module's own metric (reference Einstein tensor from symx.oracle); numeric ==
 symbolic (analytical=True) form of the metric; shipped closed-form scalars."""
+import contextlib
 import importlib
+import io
 import itertools
 import random
 from fractions import Fraction as F
@@ -821,8 +823,60 @@ def sympy_einstein_replay(mod, name, pt):
     return dict(kappa_T=lhs, G_sympy=rhs, relative_difference=rel, reproduces=rel > 1e-9)
 
 
+def stateless_layer(report):
+    """A bundled spacetime is a *function* of (t, x, y, z): what a module returns must not depend on earlier calls.  The
+    identities above are decided on one call per function; this concrete layer calls every public numpy function with the
+    signature (t, x, y, z) twice on the real module - the second time with the SAME coordinate array objects updated in
+    place and another t - and compares with the call on fresh copies (a value memoised on array identity shows here)."""
+    import inspect
+    import warnings
+    n = 0
+
+    def flat(v):
+        if isinstance(v, dict):
+            return [np.asarray(x, dtype=float) for _, x in sorted(v.items()) if not isinstance(x, str)]
+        return [np.asarray(v, dtype=float)]
+    for modname in MODS:
+        if modname == 'ICPertFLRW':
+            continue
+        mod = importlib.import_module(f'aurel.solutions.{modname}')
+        for fname, fn in sorted(vars(mod).items()):
+            if fname.startswith('_') or not inspect.isfunction(fn) or fn.__module__ != mod.__name__:
+                continue
+            if list(inspect.signature(fn).parameters)[:4] != ['t', 'x', 'y', 'z']:
+                continue
+            rng = np.random.default_rng(11)
+            x, y, z = (rng.uniform(0.6, 1.4, size=(4, 3, 2)) for _ in range(3))
+            t1, t2 = 1.7, 2.3
+            try:
+                with warnings.catch_warnings(), np.errstate(all='ignore'), contextlib.redirect_stdout(io.StringIO()):
+                    warnings.simplefilter('ignore')
+                    fn(t1, x, y, z)
+                    x += 0.37
+                    y *= 1.1
+                    z += 0.21
+                    second = flat(fn(t2, x, y, z))
+                    ref = flat(fn(t2, x.copy(), y.copy(), z.copy()))
+            except Exception as e:  # noqa
+                report.notes.append(f'stateless layer: {modname}.{fname} raised {e!r}'[:160])
+                continue
+            n += 1
+            dev = max([float(np.nanmax(np.abs(a - b))) if a.shape == b.shape and a.size else (0.0 if a.shape == b.shape else float('inf'))
+                       for a, b in zip(second, ref)] + [0.0])
+            nanmis = any(a.shape == b.shape and not np.array_equal(np.isnan(a), np.isnan(b)) for a, b in zip(second, ref))
+            if dev > 0 or nanmis or len(second) != len(ref):
+                name = f'{modname}.{fname}: second call on the same (updated) arrays'
+                report.record(name, 'sat', group='modules are functions of their arguments (concrete executions)', kind='concrete')
+                report.violation(f'{modname}.{fname} depends on earlier calls',
+                                 f'{modname}.{fname}(t, x, y, z) called again with the same array objects updated in place differs by {dev:.3g} '
+                                 'from the call on fresh copies', report.write_replay(f'stateless_{modname}_{fname}', dict(module=modname, function=fname, dev=dev)))
+    report.record(f'{n} public (t, x, y, z) functions of the 9 exact-solution modules: second call on updated arrays == call on fresh copies',
+                  'holds', group='modules are functions of their arguments (concrete executions)', kind='concrete', trivial=True)
+
+
 def main(report, tier, seed, workers, calibrate=False):
     import multiprocessing as mp
+    stateless_layer(report)
     report.bounds = dict(modules=MODS, jet_order=2, coordinates='t > 0 and (x, y, z) free reals (Schwarzschild: outside the horizon)',
                          constants='kappa, fq, M, t_today symbolic (any positive value); Collins_Stewart gamma = 4/3 with s^2 = 4/3; LCDM: 0 < Omega_m < 1 and '
                          't_EdS > 0 free, the other constants as the module derives them; Rosquist_Jantzen: s, q, k > 0, m > 0 free (covers the shipped '
